@@ -25,6 +25,10 @@ def shows(n): return ["API show %d" % k for k in n]
 
 def mut_ops():
     ops = []
+    # append of a temporary cons (x . tail) that no handle keeps, whose tail IS kept: the tail must not be shared
+    for a in LISTS:
+        for tl in LISTS:
+            ops.append("API appendtmp %d 4 %d" % (a, tl))
     for a in LISTS:
         for b in LISTS + [4, 7]:
             if not (b in LISTS and b <= a):      # a list is pushed only onto a list created before it: no cycles
@@ -45,7 +49,7 @@ def generate(tier, seed):
         lim = 2500 if tier == "quick" else 60000
         if len(allseq) > lim: allseq = rng.sample(allseq, lim)
         seqs += [list(x) for x in allseq]
-    more = ops + ["API push 7 4", "API append 7 3", "API push 4 1", "API append 5 3", "API cons 3 0", "API append 3 3", "API append 0 0", "API car 3", "API cddr 3", "API cadr 3",
+    more = ops + ["API push 7 4", "API append 7 3", "API push 4 1", "API append 5 3", "API appendtmp 3 4 8", "API appendtmp 0 1 3", "API appendtmp 8 4 3", "API cons 3 0", "API append 3 3", "API append 0 0", "API car 3", "API cddr 3", "API cadr 3",
                   "API caar 3", "API cdar 7", "API caddr 3", "API car 4", "API cdr 5", "API fromiter 1 2 4", "API list 3 3", "API list", "API eq 3 3",
                   "API equal 3 7", "API eq 0 8", "API len 3", "API len 4"]
     for _ in range(400 if tier == "quick" else 8000):
